@@ -85,11 +85,12 @@ void exec_nest(const J& plan) {
   std::vector<uint8_t> cal; unsigned cal_levels = 0; nest_chain(kinds, cal_depth, leaf_kind, cal, &cal_levels);
   size_t used_max = 0;
   LoadOpts co; co.L = L; co.deep_post = true; co.where = "calibration chain at depth L";
-  co.runner = [&](const std::function<void()>& f) { size_t used = 0; prot_set_ctx("calibration pipeline at depth L (generous stack)"); sched_run_on_stack(((size_t)512 << 10) + (size_t)4096 * L, f, &used); if (used > used_max) used_max = used; };
+  co.runner = [&](const std::function<void()>& f) { size_t used = 0; prot_set_ctx("calibration pipeline at depth L (generous stack)"); sched_run_on_stack(((size_t)4 << 20) + (size_t)65536 * L, f, &used); if (used > used_max) used_max = used; };
   LoadOutcome c0 = checked_load(cal.data(), cal.size(), co, nullptr);
   if (failed() || g_run.foreign_seen) return;
   if (!c0.item) { fail("C19", "depth-L-rejected", fmt("a chain nested exactly L=%u levels deep was not decoded (code %d at %llu)", L, c0.code, (unsigned long long)c0.position)); return; }
-  if (used_max > (size_t)(96 << 10) + (size_t)1536 * L) { fail("C19", "stack-use-not-proportional-to-L", fmt("decode/describe/size/serialize/copy/release of a depth-L tree used %zu bytes of native stack with L=%u", used_max, L)); return; }
+  if (used_max > (size_t)(1 << 20) + (size_t)32768 * L) {   // only a sanity bound: the property asks for proportionality, not for a constant
+ fail("C19", "stack-use-not-proportional-to-L", fmt("decode/describe/size/serialize/copy/release of a depth-L tree used %zu bytes of native stack with L=%u", used_max, L)); return; }
   stat_max("max_stack_used_at_depth_L", used_max);
   // --- the run proper: bounded stack = twice what the deepest acceptable tree needed (+ slack for libc)
   size_t budget = 2 * used_max + ((size_t)64 << 10);
